@@ -106,7 +106,7 @@ Section Walk.
   Variable strat : strategy.
   Variable nconns : nat.
   Variable tgt : nat -> N.
-  Notation step := (step strat nconns tgt).
+  Notation step := (step strat false nconns tgt).   (* the real code *)
 
   Fixpoint send_all (fuel : nat) (s : state) : state * bool :=   (* bool: finished *)
     match rpc s with
@@ -182,7 +182,8 @@ Section Walk.
 
   Definition wants_lock (p : pend_op) : bool :=
     match p_script p with
-    | MLabel (LSubLock _) :: _ | MLabel (LUnsub _) :: _ | MLabel LTick :: _ => true
+    | MLabel (LSubWant _) :: _ | MLabel (LSubLock _) :: _ | MLabel (LUnsubWant _) :: _ | MLabel (LUnsub _) :: _
+    | MLabel LTick :: _ | MLabel LUpdLock :: _ => true
     | _ => false
     end.
 
@@ -225,7 +226,7 @@ Section Walk.
             end
           else if is "tick" then
             if busy ps GRun then ret (SA "busy", s, ps) else
-            ret (launch i GRun [MLabel LTick; MLabel (LUpdDone obs)] KBest (SA "blocked") s ps)
+            ret (launch i GRun [MLabel LTick; MLabel LUpdLock; MLabel (LUpdDone obs)] KBest (SA "blocked") s ps)
           else if is "state" then
             let locked := match writer s with Some _ => true | None => false end || existsb wants_lock ps in
             ret (SL [sx_nat (List.length (updq s));
@@ -239,7 +240,7 @@ Section Walk.
           if is "sub" then
             if busy ps (GWaiter w) then ret (SA "busy", s, ps) else
             match wpc s w with
-            | WNew => ret (launch i (GWaiter w) [MLabel (LSubLock w); MLabel (LSubBody w)] (KSub w) (SA "blocked") s ps)
+            | WNew => ret (launch i (GWaiter w) [MLabel (LSubWant w); MLabel (LSubLock w); MLabel (LSubBody w)] (KSub w) (SA "blocked") s ps)
             | _ => ret (SA "bad", s, ps)
             end
           else if is "recv" then
@@ -256,8 +257,8 @@ Section Walk.
           else if is "unsub" then
             if busy ps (GWaiter w) then ret (SA "busy", s, ps) else
             match wpc s w with
-            | WWait => ret (launch i (GWaiter w) [MLabel (LLeave w RTimeout); MLabel (LUnsub w)] KDone (SA "blocked") s ps)
-            | WUnsub _ => ret (launch i (GWaiter w) [MLabel (LUnsub w)] KDone (SA "blocked") s ps)
+            | WWait => ret (launch i (GWaiter w) [MLabel (LLeave w RTimeout); MLabel (LUnsubWant w); MLabel (LUnsub w)] KDone (SA "blocked") s ps)
+            | WUnsub _ => ret (launch i (GWaiter w) [MLabel (LUnsubWant w); MLabel (LUnsub w)] KDone (SA "blocked") s ps)
             | _ => ret (SA "bad", s, ps)
             end
           else ret (sx_err "op1", s, ps)
@@ -301,26 +302,44 @@ Section Walk.
   Definition try_step (s : state) (l : label) : state :=
     match step s l with Some s' => s' | None => s end.
 
-  Definition deliver (s : state) (c : nat) (h : N) : state :=
-    let s1 := try_step s (LSetHead c h) in
-    let s2 := try_step s1 (LPublish 0) in
-    let s3 := try_step s2 LTake in
-    let s4 := try_step s3 (LRLock (map snd (wl s3))) in
-    let s5 := fst (send_all 4 s4) in
-    let s6 := try_step s5 LRUnlock in
-    try_step s6 (LRecv 0).
+  Definition steps (s : state) (ls : list label) : state := fold_left try_step ls s.
 
-  Definition wait_scenario (s0 : state) (heads : list (nat * N)) (fin : wres) : sx :=
-    let s1 := try_step (try_step s0 (LSubLock 0)) (LSubBody 0) in
-    let s2 := try_step s1 (LRecv 0) in
-    let s3 := fold_left (fun s ch => deliver s (fst ch) (snd ch)) heads s2 in
-    let s4 := try_step (try_step s3 (LLeave 0 fin)) (LUnsub 0) in
-    match wpc s4 0 with
+  (* one head travels from SetMasterHead through Run to the waiters' channels; every
+     waiter in its loop receives what is in its channel *)
+  Definition deliver (nw : nat) (s : state) (c : nat) (h : N) : state :=
+    let s3 := steps s [LSetHead c h; LPublish 0; LTake] in
+    let s4 := try_step s3 (LRLock (map snd (wl s3))) in
+    let s5 := fst (send_all 8 s4) in
+    let s6 := try_step s5 LRUnlock in
+    steps s6 (map LRecv (seq 0 nw)).
+
+  Definition subscribe_steps (w : nat) : list label := [LSubWant w; LSubLock w; LSubBody w; LRecv w].
+  Definition return_steps (w : nat) (fin : wres) : list label := [LLeave w fin; LUnsubWant w; LUnsub w].
+
+  Definition verdict (s : state) (w : nat) : sx :=
+    match wpc s w with
     | WDone ROk => SA "nil"
     | WDone RTimeout => SA "timeout"
     | WDone RCancel => SA "cancel"
     | _ => sx_err "wait"
     end.
+
+  Definition wait_scenario (s0 : state) (heads : list (nat * N)) (fin : wres) : sx :=
+    let s2 := steps s0 (subscribe_steps 0) in
+    let s3 := fold_left (fun s ch => deliver 1 s (fst ch) (snd ch)) heads s2 in
+    verdict (steps s3 (return_steps 0 fin)) 0.
+
+  (* caller 0 first; then caller 1 (if it is satisfied at once it returns - running its
+     deferred unsubscribe - before anything else happens); then the heads; then timeouts *)
+  Definition wait2_scenario (s0 : state) (heads : list (nat * N)) : sx :=
+    let s1 := steps s0 (subscribe_steps 0) in
+    let s2 := steps s1 (subscribe_steps 1) in
+    let s3 := steps s2 [LUnsubWant 1; LUnsub 1] in          (* enabled only if caller 1 has left its loop *)
+    let s4 := fold_left (fun s ch =>
+                let s' := deliver 2 s (fst ch) (snd ch) in
+                steps s' [LUnsubWant 0; LUnsub 0; LUnsubWant 1; LUnsub 1]) heads s3 in
+    let s5 := steps s4 (return_steps 0 RTimeout ++ return_steps 1 RTimeout) in
+    SL [verdict s5 0; verdict s5 1].
 End Walk.
 
 Fixpoint nth_tgt (l : list sx) (w : nat) : N :=
@@ -347,9 +366,21 @@ Fixpoint heads_of (l : list sx) : list (nat * N) :=
   | _ => []
   end.
 
-(* (tgt h0 ((conn head) ...) cancel?): two connections, 0 is the best one with head h0 *)
+(* (tgt0 tgt1 h0 ((conn head) ...)): two callers of WaitMasterchainSeqno on a fresh pool *)
+Definition run_wait2 (a : sx) : sx :=
+  match a with
+  | SL [SN t0; SN t1; SN h0; SL hs] =>
+      wait2_scenario BestPing 2 (fun w => if Nat.eqb w 0 then t0 else t1)
+        (init_state (fun c => if Nat.eqb c 0 then h0 else 0%N) (Some 0))
+        (heads_of hs)
+  | _ => sx_err "wait2 args"
+  end.
+
+(* (tgt h0 ((conn head) ...) cancel?): two connections, 0 is the best one with head h0;
+   the four-number shape is the two-caller scenario above *)
 Definition run_wait (a : sx) : sx :=
   match a with
+  | SL [SN _; SN _; SN _; SL _] => run_wait2 a
   | SL [SN tg; SN h0; SL hs; SB cancel] =>
       wait_scenario BestPing 2 (fun _ => tg)
         (init_state (fun c => if Nat.eqb c 0 then h0 else 0%N) (Some 0))
